@@ -1520,10 +1520,29 @@ class Interp:
             from . import loops
             return loops.while_with_invariant(self, node, frame, spec)
         n = 0
+        n_sym = 0
+        prev = None
         while True:
             c = self.truth(self.eval(node.test, frame))
             if not isinstance(c, bool):
-                raise Unsupported('while loop with a symbolic guard needs an invariant (line %d)' % node.lineno)
+                # A loop the sidecar has no invariant for (the source is ahead of the sidecar).  It is not PROVED anything about:
+                # the loop is unrolled a few times to look for a refutation only - a pass through the body that provably changes
+                # nothing while the guard stays true (the program never leaves the loop on that input), or a real exit path.
+                # Whatever is still inside the loop after three passes is undecided, as before.
+                n_sym += 1
+                if prev is not None:
+                    lasso = self._unchanged_since(prev, frame)
+                    if lasso is not None:
+                        both = ops.and_(c, lasso)
+                        if both is True or (both is not False and self.ctx.branch(both)):
+                            self.ctx.raise_exc('NonTermination', 'the loop at line %d repeats with an unchanged state' % node.lineno)
+                if n_sym > 3:
+                    raise Unsupported('while loop with a symbolic guard needs an invariant (line %d)' % node.lineno)
+                if not self.ctx.branch(c):
+                    self.exec_block(node.orelse, frame)
+                    return
+                prev = self._loop_state(frame)
+                c = True
             if not c:
                 self.exec_block(node.orelse, frame)
                 return
@@ -1536,6 +1555,98 @@ class Interp:
                 return
             except _Continue:
                 continue
+
+    # ---- lasso probe for loops without an invariant (refutation only)
+    def _capture(self, v, depth, memo):
+        if id(v) in memo or depth > 3:
+            return ('ref', v)
+        if isinstance(v, Obj):
+            memo.add(id(v))
+            return ('obj', v, {k: self._capture(x, depth + 1, memo) for k, x in v.attrs.items()})
+        if isinstance(v, PyList):
+            memo.add(id(v))
+            return ('list', v, [self._capture(x, depth + 1, memo) for x in v.items])
+        if hasattr(v, 'buf') and hasattr(v, 'pos') and hasattr(v, 'm_read'):
+            memo.add(id(v))
+            return ('bio', v, v.buf, v.pos)
+        if isinstance(v, (PyDict, PySet, SymSeq, SymMap, SymObj)):
+            return ('opaque', v)
+        return ('leaf', v)
+
+    def _loop_state(self, frame):
+        memo = set()
+        return {'locals': {k: self._capture(v, 0, memo) for k, v in frame.locals.items()},
+                'nondet': (getattr(self.ctx, 'n_nondet', 0), self.ctx.counter),
+                'class_over': dict(self.state.class_over), 'fields': dict(self.state.fields), 'events': len(self.state.events)}
+
+    def _same(self, cap, v):
+        """-> True / False / z3-backed Sym bool / None (cannot tell)"""
+        kind = cap[0]
+        if kind == 'ref':
+            return True if cap[1] is v else None
+        if kind == 'opaque':
+            return None
+        if kind == 'leaf':
+            a = cap[1]
+            if a is v:
+                return True
+            if isinstance(a, (Sym, bool, int, bytes, str, Fraction)) or a is None:
+                if isinstance(v, (Sym, bool, int, bytes, str, Fraction)) or v is None:
+                    if ops.pytype(a) != ops.pytype(v):
+                        return False
+                    try:
+                        return ops.equal(a, v)
+                    except Unsupported:
+                        return None
+            return None
+        if cap[1] is not v:
+            return None
+        if kind == 'obj':
+            if set(cap[2]) != set(v.attrs):
+                return False
+            g = True
+            for k, c in cap[2].items():
+                r = self._same(c, v.attrs[k])
+                if r is None:
+                    return None
+                g = ops.and_(g, r)
+            return g
+        if kind == 'list':
+            if len(cap[2]) != len(v.items):
+                return False
+            g = True
+            for c, x in zip(cap[2], v.items):
+                r = self._same(c, x)
+                if r is None:
+                    return None
+                g = ops.and_(g, r)
+            return g
+        if kind == 'bio':
+            try:
+                return ops.and_(ops.equal(cap[2], v.buf), ops.equal(cap[3], v.pos))
+            except Unsupported:
+                return None
+        return None
+
+    def _unchanged_since(self, prev, frame):
+        """a condition under which the state the loop can read is what it was at the previous loop head (None: cannot tell,
+        or the pass was not deterministic / had visible effects)"""
+        if prev['nondet'] != (getattr(self.ctx, 'n_nondet', 0), self.ctx.counter):
+            return None             # a model made a choice or introduced an unconstrained value: the next pass may differ
+        if prev['events'] != len(self.state.events):
+            return None
+        if prev['class_over'] != self.state.class_over or set(prev['fields']) != set(self.state.fields) \
+                or any(self.state.fields[k] is not v for k, v in prev['fields'].items()):
+            return None
+        g = True
+        for k, cap in prev['locals'].items():
+            if k not in frame.locals:
+                return None
+            r = self._same(cap, frame.locals[k])
+            if r is None:
+                return None
+            g = ops.and_(g, r)
+        return g
 
     def s_For(self, node, frame):
         spec = self.loop_spec(node, frame)
